@@ -22,7 +22,7 @@ RULE = (
     "needs escaping or is syntax-relevant; every escape case. Distinct by construction / distinct bytes."
 )
 ASSUMPTIONS = [
-    "\\uHHHH is only judged for HHHH <= 0x00ff (the byte value of larger code points is not documented)",
+    "\\uHHHH with HHHH > 0x00ff is judged by consistency only: it decodes like the raw character U+HHHH in the same literal (the byte value itself is not documented)",
     "unknown escapes (backslash + other character) are not generated in hand-written literals",
     "str arguments to the builder are pre-escaped text by contract and are judged in C13, not here",
 ]
@@ -123,6 +123,17 @@ def check_bytes_in_parser(data, ctxname, c2p, as_dict=False):
         got = d.get("http-get.client.metadata")
         if got != [("prepend", data), ("append", data), "print"]:
             return "parser.as_dict", f"as_dict() reports {got!r} for literal {lit!r} of {data!r}"
+        # the same bytes handed to the profile builder (steps and both kinds of termination), printed and parsed again
+        for term in ("header", "parameter"):
+            blk = c2p.DataTransformBlock()
+            blk.add_step("prepend", data)
+            blk.add_step("append", data)
+            blk.add_termination(term, data)
+            built = c2p.C2Profile()
+            built.set_config_block("http_get", c2p.HttpGetBlock(client=c2p.HttpOptionsBlock(metadata=blk)))
+            got = c2p.C2Profile.from_text(built.as_text()).as_dict().get("http-get.client.metadata")
+            if got != [("prepend", data), ("append", data), (term, data)]:
+                return "parser.as_dict", f"builder route: steps and '{term}' termination given {data!r} read back as {got!r}"
     return None
 
 
@@ -301,6 +312,9 @@ def run_shard(shard, ctx):
             cases.append(("simple", e, b))
         for raw in ("\n", "\t", "'", ";", "{", "}", "#", "\u00e9", "\uffc2", "x", "\\\\x41"):
             cases.append(("raw", raw, lit_decode(raw)))
+        for cp in (0x0100, 0x0141, 0x1234, 0x20AC, 0xFF00, 0xFFC2, 0x2028):
+            # \uHHHH names the character U+HHHH: the escape decodes like the character itself, typed raw in the literal
+            cases.append(("uHHHH-as-character", "\\u%04x" % cp, lit_decode(chr(cp))))
         for bad in ("AB\\x4", "zz\\xzz", "q\\u00", "\\u12", "abc\\xg1", "\\x", "k\\u", "\\uzzzz"):
             check_case({"op": "after_refusal", "bad": bad, "then": [("", b""), ("ok", b"ok"), ("\\x41", b"A")]}, ctx)
         ctxs = list(CONTEXTS)
